@@ -1159,6 +1159,68 @@ def h_respawn_fails_in_manager_thread(i):
     return {"reproduced": failed, "observed": [l[:300] for l in lines[-2:]], "expected": "the future fails with a BrokenProcessPool error"}
 
 
+_F34_PROG = 'import sys, threading, os, time\nsys.path.insert(0, "/repo")\nfrom loky.process_executor import ProcessPoolExecutor\nif __name__ == "__main__":\n    ex = ProcessPoolExecutor(max_workers=2, env={"X": "a\\0b"})\n    try:\n        ex.submit(int, 0); print("submit returned")\n    except BaseException as e:\n        print("submit raised", type(e).__name__)\n    t = threading.Thread(target=ex.shutdown, daemon=True); t.start(); t.join(10)\n    hung = t.is_alive()\n    print("shutdown(wait=True) after a submit that could spawn no worker at all:", "still blocked after 10 s" if hung else "returned", "| manager thread started:", ex._executor_manager_thread is not None or hung)\n    print("FAIL" if hung else "PASS")\n    os._exit(1 if hung else 0)\n'
+
+
+def h_shutdown_after_total_spawn_failure(i):
+    """F34: an executor whose workers cannot be spawned at all (env={'X': 'a\\0b'}: every fork_exec raises ValueError): submit raises; shutdown(wait=True)
+    (or leaving a with-block) must return instead of waiting for ever for the work item the failed submit left registered."""
+    import subprocess
+    import tempfile
+    repo = sys.argv[3] if len(sys.argv) > 3 else "/repo"
+    with tempfile.TemporaryDirectory(prefix="f34-") as td:
+        path = os.path.join(td, "prog.py")
+        with open(path, "w") as fh:
+            fh.write(_F34_PROG.replace('"/repo"', repr(repo)))
+        out = os.path.join(td, "out.txt")
+        with open(out, "w") as fo:
+            try:
+                subprocess.run([sys.executable, path], stdout=fo, stderr=subprocess.DEVNULL, stdin=subprocess.DEVNULL, timeout=120, start_new_session=True)
+            except subprocess.TimeoutExpired:
+                pass
+        lines = [l for l in open(out, errors="replace").read().splitlines() if l and "leaked" not in l]
+    failed = any(l.startswith("FAIL") for l in lines) or not any(l.startswith("PASS") for l in lines)
+    return {"reproduced": failed, "observed": [l[:300] for l in lines[-3:]], "expected": "shutdown(wait=True) returns"}
+
+
+class _F35A:
+    def f(self):
+        return "A.f"
+
+    def g(self):
+        return "first g"
+    alias = g
+
+    def g(self):          # noqa: F811 (the alias above keeps the first definition)
+        return "second g"
+
+
+class _F35B(_F35A):
+    def f(self):
+        return "B.f"
+
+    def parent_f(self):
+        return super().f
+
+
+def h_bound_method_round_trip(i):
+    """F35: bound methods pickled with loky's pickler (its built-in reducer for methods) must come back as the same function bound to an equal object:
+    the parent's method reached through super(), and a method reached through an alias whose name was later re-used."""
+    import pickle
+    from loky.backend.reduction import dumps
+    cases = {"super().f of a B instance": _F35B().parent_f(), "alias of a re-defined method": _F35A().alias}
+    obs = {}
+    for name, m in cases.items():
+        want = m()
+        try:
+            got = pickle.loads(dumps(m))()
+        except BaseException as e:
+            got = f"raised {type(e).__name__}"
+        obs[name] = {"direct call": want, "after the round trip": got}
+    bad = [k for k, v in obs.items() if v["direct call"] != v["after the round trip"]]
+    return {"reproduced": bool(bad), "observed": obs, "expected": "the same result after the round trip"}
+
+
 _F15_PROG = 'import os, sys, time, threading, warnings\nsys.path.insert(0, "/repo")\nwarnings.simplefilter("ignore")\nfrom loky.process_executor import ProcessPoolExecutor\ndef init():\n    import loky.process_executor as pe\n    pe._MAX_MEMORY_LEAK_SIZE = 0          # every memory check finds a "leak": the worker leaves cleanly after announcing its pid\n    pe._MEMORY_LEAK_CHECK_DELAY = 0.2\ndef work(i):\n    import time\n    x = [0] * 200000\n    time.sleep(0.4)\n    return i\nif __name__ == "__main__":\n    errs = []\n    threading.excepthook = lambda a: errs.append((a.thread.name, a.exc_type.__name__, str(a.exc_value)[:80]))\n    ex = ProcessPoolExecutor(max_workers=1, initializer=init)\n    futs = [ex.submit(work, i) for i in range(12)]\n    mode = sys.argv[1] if len(sys.argv) > 1 else "collected"\n    if mode == "collected":\n        del ex                            # the executor object is collected while its futures are pending\n        import gc; gc.collect()\n    res = []\n    for f in futs:\n        try:\n            res.append(f.result(timeout=6))\n        except Exception as e:\n            res.append(type(e).__name__)\n    print("results:", res)\n    print("manager thread errors:", errs)\n    ok = res == list(range(12)) and not errs\n    print("PASS" if ok else "FAIL")\n    os._exit(0 if ok else 1)\n'
 
 
